@@ -88,6 +88,17 @@ def run(ctx: core.Ctx) -> int:
                           "steps": steps,
                           "label": anncases.label(file=fname, body=kind, history=[s["b"]["name"] for s in h],
                                                   flavours=[st["flavour"] for st in steps])})
+    # templates (also already-commented ones) that leave out a category, on files that declare that category: the tool may
+    # refuse, but what the file declared must not be gone after a run that reports success
+    singles1 = [h for h in hists if len(h) == 1]
+    for tmpl in ("pydrop", "pydroplic", "pydropcop", "droplic", "dropcop", "dropall"):
+        for kind in ("ownheader", "owncon"):
+            for h in singles1[:3]:
+                seed = f"{ctx.seed}|tmpl|{len(cases)}"
+                st_ = anncases.step_of(h[0]["b"], rnd, ["sample.py"], {"template": tmpl}, must=False, pick_seed=seed)
+                cases.append({"tid": len(cases) + 1, "files": [{"name": "sample.py", "kind": kind, "style_name": "python", "eol": "\n"}],
+                              "steps": [st_, st_],
+                              "label": anncases.label(file="sample.py", body=kind, history=[h[0]["b"]["name"]] * 2, flavours=[{"template": tmpl}] * 2)})
     # the same histories on files whose header always goes to FILE.license (sibling absent, or holding notices already)
     for hi, h in enumerate(hists if not q else hists[::3]):
         fname, _ = DOT_TYPES[hi % len(DOT_TYPES)]
